@@ -16,7 +16,7 @@ chk("C15", "exploration",
     "Complete enumeration of the codec's group-local input space: every 3-byte group, every line fill 0..45, every total length "
     "0..4096 (thorough 0..65536 and 2^k+-1 to 1 MiB) compared with a reference encoder, perl pack('u') and perl unpack('u'); every string of "
     "length <=6 (thorough <=7) over an 11-symbol decoder alphabet plus CR-LF/blank-line/over-long/bad-character rewrites for totality, "
-    "located errors and purity of src/dst. The decoder's error must point at the first invalid line (and character), as computed by a reference validator.",
+    "located errors and purity of src/dst. The decoder's error must point at the first invalid line (and character), as computed by a reference validator. Every length character 0x20..0xff with a data part of exactly the matching size (three contents, alone and after a full line) must decode to the bytes its characters stand for.",
     "perl 5.36 pack/unpack is the compatibility reference; contents at large sizes are three fixed patterns (the codec is group-local, and all groups are covered).",
     "DESIGN.md 5 C15")
 
@@ -32,32 +32,32 @@ _BWNOTE = ("Assumes lock-section + environment-event granularity is enough (all 
 chk("C01", "model_checking",
     "explicit-state BFS over the real broker under a controlled scheduler (hook gates), reference-model conformance after every step",
     _BW + "C01: <=3 (thorough 4) attempts over IDs {k, kk, K, empty, /io}, every order of admissions, stream endings, releases, cancellations and shutdown; "
-    "oracles: refused attempts end at once, never see I/O, are announced; only the attached pair sees a probe line / chunk; IDs equal. HTTP seam: every ordered pair of streams over /i/{id}, /o/{id} (6 ID spellings incl. percent-encoded and case variants) and /io through the real handlers over TLS with probe line and chunk.",
+    "oracles: refused attempts end at once, never see I/O, are announced; only the attached pair sees a probe line / chunk; IDs equal. HTTP seam: every ordered pair of streams over /i/{id}, /o/{id} (6 ID spellings incl. percent-encoded and case variants) and /io through the real handlers over TLS with probe line and chunk. Two simultaneous /io requests are part of the mixed profile.",
     _BWNOTE, "DESIGN.md 4, 5 C01")
 chk("C04", "model_checking",
     "explicit-state BFS over the real broker under a controlled scheduler, goroutine census at quiescence",
     _BW + "C04: every ending (EOF, error, data+error, write/flush failure, cancel, input closed, shutdown) in every life state of uni- and bidirectional shells over "
     "successive shells, plus a stalled-terminal flood on an unbuffered operator channel; oracles: peer ends without traffic, exactly one ready/gone notice and event, "
-    "closure notices, no goroutine of an ended shell left, Do returns only when nothing is attached.",
+    "closure notices, no goroutine of an ended shell left, Do returns only when nothing is attached. Stalled terminal: notices are counted over the whole history (once a Connect call has returned, its closure/ready/gone notices must have been handed to the slow operator). HTTP seam: every way a client can end a direction over real TLS connections, several shells in a row.",
     _BWNOTE, "DESIGN.md 4, 5 C04")
 chk("C06", "model_checking",
     "explicit-state BFS over the real broker under a controlled scheduler: every admission order of the halves of 2-4 /io requests",
     _BW + "C06: 2 (thorough up to 4) simultaneous ConnectInOut calls plus unidirectional streams, each half parked separately, every admission order, "
-    "cancellations and releases; oracle: the attached pair always belongs to one request (checked on state, on who receives the probe line and whose reader is drained).",
+    "cancellations and releases; oracle: the attached pair always belongs to one request (checked on state, on who receives the probe line and whose reader is drained). Gated HTTP seam: real /io, /i, /o requests over TLS whose broker halves are parked by the hooks, every admission order (4-8 halves) executed, pairing judged by the hooks and by probe traffic.",
     _BWNOTE, "DESIGN.md 4, 5 C06")
 
 chk("C02", "model_checking",
     "explicit-state BFS over the real broker under a controlled scheduler with write/flush fault injection at every point; exhaustive payload enumeration",
     _BW + "C02: <=3 (thorough 4) operator lines entered before, between and during <=2-3 successive shells on all four writer kinds (plain, Flusher, FlushError, both), "
     "a write or flush failure at every point, clients vanishing (including 'while the line is in the proxy's hands'), input closing; oracle on the writers' call logs: "
-    "each entry = line + one newline, flushed before the next, gap-free duplicate-free run across shells, nothing lost except a line whose own transmission failed. Lines also enter through the real opshell.ChanWriter (sizes 2^k+-1 to 1 MiB) and through Ctrl+I on the real Shell (pty worker): exactly one entry, reported size and hash correct.",
+    "each entry = line + one newline, flushed before the next, gap-free duplicate-free run across shells, nothing lost except a line whose own transmission failed. Lines also enter through the real opshell.ChanWriter (sizes 2^k+-1 to 1 MiB) and through Ctrl+I on the real Shell (pty worker): exactly one entry, reported size and hash correct. HTTP seam: each entered line must be readable by the real client before the next is entered. Quiet spell: a second build with the clocks of internal/hsrv and internal/iobroker virtual; after 1 s..20 min of quiet (every due timer fired) lines still arrive exactly and nothing else does.",
     _BWNOTE + " The HTTP/1.1-over-TLS writer is represented by the FlushError kind (what net/http hands the handler); the TLS seam itself is not part of this check.",
     "DESIGN.md 4, 5 C02")
 chk("C03", "model_checking",
     "explicit-state BFS over the real broker: every sequence of read results x every terminal speed (unbuffered, one-slot, roomy operator channel)",
     _BW + "C03: every sequence of <=3 (thorough 4-5) read results over {data, zero-length, data+EOF/unexpected EOF/error, bare EOF/closed pipe/error, sizes 1/2047/2048/2049/5000}, "
     "operator channel of capacity 0, 1 and 1024 consumed at every relative speed, cancellation at every point (also simultaneously with a read returning); oracle: what is shown is "
-    "always a prefix of what was sent, complete and in front of the close notice when the stream ended by itself. Terminal seam: every sequence of <=4 (thorough 6) items over {chunk, chunk without newline, multi-line chunk, close-style notice, status line} through the real opshell.Shell on a pty, stepwise / burst / backlog before start: terminal = CR-LF translation, in order.",
+    "always a prefix of what was sent, complete and in front of the close notice when the stream ended by itself. Terminal seam: every sequence of <=4 (thorough 6) items over {chunk, chunk without newline, multi-line chunk, close-style notice, status line} through the real opshell.Shell on a pty, stepwise / burst / backlog before start: terminal = CR-LF translation, in order. The seam alphabet also has a chunk with CR LF and a chunk that repeats byte for byte. HTTP seam: every chunking x ending of a real upload. Quiet spell: a second build with the clocks of internal/hsrv and internal/iobroker virtual; after 1 s..20 min of quiet (every due timer fired in order) 32 chunks must still be displayed exactly.",
     _BWNOTE, "DESIGN.md 4, 5 C03")
 chk("C11", "model_checking",
     "explicit-state BFS over the real broker with a capturing slog handler and a real slog JSON handler; exhaustive payload enumeration",
@@ -79,7 +79,7 @@ chk("C18", "exploration",
     "bounded exhaustive enumeration of TABDOC strings, generated function executed by dash and bash with an argument-framing echo stub",
     "Every string of <=3 (thorough 4) symbols over 23 shell-significant symbols (quotes, backslash, $, backquote, parentheses, operators, globs, control bytes, invalid UTF-8) "
     "as name, description and both, classic quote-breakers carrying canary commands, and every sequence of <=4 doc lines over a menu with duplicates/empties; oracle: one "
-    "call of echo per expected row with exactly one argument whose bytes parse to the expected (name, description), sorted, nothing else on stdout/stderr, status 0, no canary.",
+    "call of echo per expected row with exactly one argument whose bytes parse to the expected (name, description), sorted, nothing else on stdout/stderr, status 0, no canary. Converter.From seam: every sequence of <=3 sources (filtered / unfiltered files, with / without final newline, a directory) converted with and without the listing; the listing is the only difference and its rows are those of the TABDOC lines of the payload it follows.",
     "dash and bash of this image stand for 'a POSIX shell'.",
     "DESIGN.md 5 C18")
 
@@ -96,7 +96,7 @@ chk("C10", "exploration",
     "bounded exhaustive enumeration of printf-significant token strings in every client-controlled position of every reporting handler, over real TLS against the in-process server",
     "Every string of <=3 (thorough 4) tokens over {%, %%, s, d, v, q, x, 20, -, +, #, *, [1], !, a, %20, %25, %73, %2B} as file path, file query, c2 parameter (valid and invalid escapes), c2 header, "
     "another /c parameter, /i ID and /o ID (refused and attaching), Host; the template-missing/unparsable/exec-failure and files-directory-missing error branches; client addresses with a percent "
-    "sign (zoned link-local IPv6) when the host has one. Oracle: the notice about the request carries the text as data and no formatter artefact the client did not send. Also the last seam: %-bearing notices and chunks through the real opshell.Shell on a pty must reach the terminal verbatim.",
+    "sign (zoned link-local IPv6) when the host has one. Oracle: the notice about the request carries the text as data and no formatter artefact the client did not send. Also the last seam: %-bearing notices and chunks through the real opshell.Shell on a pty must reach the terminal verbatim. net/http's own connection notices (plaintext or a broken handshake on the TLS port) from a zoned client are checked too.",
     "Only requests net/http lets through to a handler can be explored. The 'every call site in the tree' clause of the quantifier is not decided by this technique (a static scan is another family); only sites reached by requests are exercised.",
     "DESIGN.md 5 C10")
 
@@ -106,28 +106,28 @@ chk("C05", "exploration",
     "exhaustive product of start-up configurations and restart/overlap histories, pin recomputed from the wire certificate, real curl --pinnedpubkey",
     _HW + "C05: key source {none, cache created, cache reused over 3 starts} x 6 listen-address forms x 6 callback-address sets x files x template; every sha256// value in the start-up notices, "
     "the help re-printed after a shell died and two /c bodies equals base64(SHA-256(SPKI)) of the leaf seen in two handshakes; one-liners name the bound port unless the user gave one; real curl "
-    "accepts the advertised pin and refuses a one-character variant; an instance keeps serving what it advertised while its cache file is deleted/re-created/rewritten by another instance; four instances started together on a fresh cache path. Also: hand-made caches (a certificate section holding a chain; a certificate whose validity has passed) over three starts, and the real binary on a pty (fingerprints and ports as printed on the terminal, restart on the same cache).",
+    "accepts the advertised pin and refuses a one-character variant; an instance keeps serving what it advertised while its cache file is deleted/re-created/rewritten by another instance; four instances started together on a fresh cache path. Also: hand-made caches (a certificate section holding a chain; a certificate whose validity has passed) over three starts, and the real binary on a pty (fingerprints and ports as printed on the terminal, restart on the same cache). 16 clients requesting scripts at once (6 400 / 64 000 scripts): both pins of every script are the listener's (a sampling complement for shared rendering state).",
     "Key values are not enumerable; the oracle is relational per generated key. A start the program refuses is outside this property.",
     "DESIGN.md 5 C05")
 chk("C07", "exploration",
     "exhaustive product of address sources, exhaustive template-edit histories to a depth, scripts executed by /bin/sh with real curl",
     _HW + "C07: c2 parameter (query and POST form; plain, URL-encoded, IPv6 literal) x c2 header x Host (absent/HTTP/1.0, name, name:port, two IDN names via absolute-form target) x SNI on IPv4 and IPv6 listeners against a 5-line reference precedence function; "
     "both curl lines carry the wire pin, the same address and the same fresh [0-9a-z]+ ID (distinct over 500-2000 scripts); every history of <=4 (thorough 5) template-file operations "
-    "{T1, T2, unparsable, failing at execution, remove} with two requests after each; the script piped to /bin/sh for Host / c2 param / c2 header [::1] / SNI sources x default and custom template with a marker command round trip. Also IPv6-literal Host values and 16 x 1 500 (thorough 6 000) concurrent /c requests whose IDs must be pairwise distinct (a sampling complement).",
+    "{T1, T2, unparsable, failing at execution, remove} with two requests after each; the script piped to /bin/sh for Host / c2 param / c2 header [::1] / SNI sources x default and custom template with a marker command round trip. Also IPv6-literal Host values and 16 x 1 500 (thorough 6 000) concurrent /c requests whose IDs must be pairwise distinct (a sampling complement). Each of those 16 clients uses a callback address of its own length and checks every script against its own request. Template histories start from a good, a missing and an unparsable template file.",
     "Addresses that do not route back to this host are checked textually only.",
     "DESIGN.md 5 C07")
 chk("C09", "exploration",
     "bounded exhaustive enumeration of raw request targets against real directory trees with canaries outside, all three configurations",
     _HW + "C09: every target of <=3 segments (thorough: larger segment set, 4 segments over the core set) over dot-segments, encoded/double-encoded dots, encoded slashes, backslashes, NUL, empty segments, "
     "shell-endpoint names, canary names and a 4 KiB segment x 3 prefixes x 3 suffixes, 301s followed once, against 3 trees (flat, nested, files named c/io/i/x/o/x) + single-file + unset; oracle: no canary content ever, "
-    "no outside listing, 200 bodies are files/listings of the tree (single file: exactly that file; unset: no non-shell 2xx, file handler never runs), shell endpoints keep acting as such (by their notices), one 'File requested' notice per file response. Also: siblings whose names begin with the tree's name reached through every spelling of .. that survives the mux; shell endpoints with POST/PUT/DELETE/OPTIONS; 40 file requests against an operator queue of 8 (a stalled terminal) must all be reported.",
+    "no outside listing, 200 bodies are files/listings of the tree (single file: exactly that file; unset: no non-shell 2xx, file handler never runs), shell endpoints keep acting as such (by their notices), one 'File requested' notice per file response. Also: siblings whose names begin with the tree's name reached through every spelling of .. that survives the mux; shell endpoints with POST/PUT/DELETE/OPTIONS; 40 file requests against an operator queue of 8 (a stalled terminal) must all be reported. Single-file mode under concurrency (a 3 MiB file fetched by 8 clients at once, three rounds) and after the file was replaced by rename.",
     "Symlinks inside the tree are outside the quantifier. net/http's own 400/301 answers are only checked for leaking content.",
     "DESIGN.md 5 C09")
 
 chk("C13", "model_checking",
     "stateless DFS over all interleavings of concurrent simpleshell.Go calls at their Shell-callback scheduling points, plus exhaustive input pairs and call histories, against real TLS servers",
-    "Real TLS servers A, B and C (C presents the chain [C, A]); (a) every (server, fingerprint spelling) pair over 11 spellings (plain, prefixed, unpadded, 31/33 bytes, non-base64, prefix only, double prefix, "
-    "trailing blank, none); (b) every history of <=3 calls over 6 configurations (same URL with different pins included); (c) every schedule of 2 (thorough 3) concurrent calls, the scheduling points being the "
+    "Real TLS servers A, B, C (C presents the chain [C, A]) and I (a copy of A's certificate - subject, issuer, serial number, validity - around another key); (a) every (server, fingerprint spelling) pair over 11 spellings (plain, prefixed, unpadded, 31/33 bytes, non-base64, prefix only, double prefix, "
+    "trailing blank, none); (b) every history of <=3 calls over 7 configurations (same URL with different pins included); (c) every schedule of 2 (thorough 3) concurrent calls, the scheduling points being the "
     "callbacks Go makes (Output() sits exactly between transport configuration and the request). Oracle: reference verdict (chain contains the pinned key / ordinary validation), the server's handler runs and receives body bytes "
     "only for accepted calls, a call reaches only its own server, http.DefaultClient / DefaultTransport settings unchanged after every step. Thorough adds a free-running -race pass.",
     "Scheduling granularity is the callbacks, not every instruction; the -race pass covers unsynchronised accesses.",
@@ -153,7 +153,7 @@ chk("C20", "fault_enumeration",
     "exhaustive enumeration of single and paired start-up faults x informational flag x tty, and of self-initiated exits, on the real binary with termios compared",
     "The real curlrevshell binary, as session leader on a fresh pty or without any controlling terminal: every single fault of {listen address: bad syntax / port bound / not local; cache: empty / cut before the key / garbage / unwritable path; "
     "log path: parent missing / parent is a file; Ctrl+I source missing} and every pair from different resources x {no flag, -print-default-template, -print-ctrl-i, -h} x {pty, no tty}; every self-initiated exit (Ctrl+C, Ctrl+D, -one-shell completion; idle and with a shell attached over real TLS). "
-    "Oracle: no panic / stack trace, non-zero status with a message naming a cause (or the requested output with status 0), exit 0 + 'Goodbye.' for self exits, termios after exit equal to termios before start. Cache faults include a directory that exists but takes no files.",
+    "Oracle: no panic / stack trace, non-zero status with a message naming a cause (or the requested output with status 0), exit 0 + 'Goodbye.' for self exits, termios after exit equal to termios before start. Cache faults include a directory that exists but takes no files. Every exit and every single fault is also run with GOGC=1 (collector and finalizers running all the time).",
     "Which of two faults is named and whether an informational flag wins over a fault is not fixed by the statement: either accepted. Root ignores file modes, so 'unwritable' is a parent that is a regular file.",
     "DESIGN.md 5 C20")
 
@@ -168,7 +168,7 @@ chk("C12", "exploration",
 chk("C19", "model_checking",
     "stateless exhaustive DFS over all event strings of length L on the real opshell.Shell under a virtual clock (import-rewritten time), three-valued reference model",
     "lib/opshell/opshell.go is built with its time import rewritten (overlay) to a virtual clock. The real Shell is constructed by the real New in worker processes whose controlling terminal is a fresh pty, Do running, terminal output captured; "
-    "every event string of length 6 (thorough 8) over {Ctrl+O, plain chunk, status line, +0.1 s, +1.9 s, +2.1 s} is executed (46 656 / 1 679 616 executions), timers firing at their own deadlines with quiescence after each; "
+    "every event string of length 6 (thorough 8) over {Ctrl+O, plain chunk, status line (four dresses, by position), Ctrl+J preview, +0.1 s, +1.9 s, +2.1 s} is executed (117 649 / 5 764 801 executions), timers firing at their own deadlines with quiescence after each; "
     "oracle after every step: a chunk is shown iff the model is un-muted, every status line is shown, exactly one Muting / Already muted / Unmuting announcement where due, nothing suppressed without Ctrl+O, private flag equals the model where the model is sure. "
     "Second exploration (sync import rewritten to a parking mutex): for Ctrl+O typed on stdin together with shell output / a status line / Ctrl+I, muted or not, every order of the write-lock steps of the goroutines involved is executed (stateless DFS); oracle: the terminal still displays a status line afterwards and no goroutine is stuck on a mutex (found the Ctrl+O deadlock, fixed in 16389e4).",
     "Ctrl+O is delivered through the callback the Shell registered (goxterm's key decoding trusted). Three-valued model: between the two readings of a repeated Ctrl+O and exactly on a 2.0 s boundary either state is accepted. Real-time behaviour of the binary is not part of the deciding run.",
